@@ -306,7 +306,7 @@ class ApplyModifiers(Contract):
     it - value and list modifiers alike (the admissibility checks of re / cidr / exists depend on that)"""
     id = "C03.SigmaDetectionItem.apply_modifiers"
     target = "sigma.rule.detection:SigmaDetectionItem.apply_modifiers"
-    props = ("C03",)
+    props = ("C03", "C04")
     cases = tuple("".join(t) for n in (0, 1, 2, 3) for t in itertools.product("VL", repeat=n))
     assumed = ["SigmaModifier.apply of the individual modifiers is abstract here (own contracts): V = a value modifier producing two values per value, L = a list modifier producing one value for the list"]
 
@@ -328,7 +328,10 @@ class ApplyModifiers(Contract):
         idx = I.E.index
         I.E._c03_log = []
         mods = [ClassRef(idx.lookup("sigma.modifiers:SigmaContainsModifier" if ch == "V" else "sigma.modifiers:SigmaAllModifier")) for ch in case]
-        vals = [SObj("Val", {}, ghost={"orig": i}) for i in range(2)]
+        # the values are strings whose source texts may or may not be equal (values built by earlier modifiers all have the source text '')
+        vals = [SObj(idx.lookup("sigma.types:SigmaString"), {"original": I.fresh(f"original{i}", "str")}, lazy=True) for i in range(2)]
+        for i, v in enumerate(vals):
+            v.ghost["orig"] = i
         src = SObj("Source", {})
         me = SObj(idx.lookup("sigma.rule.detection:SigmaDetectionItem"), {"modifiers": mods, "value": list(vals), "source": src}, lazy=True)
         return {"self": me, "args": [], "vals": vals, "src": src, "case": case}
